@@ -809,8 +809,45 @@ func c03CrashInner(t *testing.T) {
 			r.judge(res, "after-close", "idle", "idle", dir, false)
 		}
 
+		// A reap checkpoints WAL files into the snapshot's data.db inside SQLite,
+		// where no filesystem event fires: derive the states an interrupted
+		// checkpoint leaves (subset / prefix / all of the WAL's pages already in
+		// data.db, WAL still in checkpoint position) from every state taken right
+		// after rename(<wal> -> data.db-wal).
+		states := append([]vcrash.State{}, recd.States...)
+		if h.Final.Kind == "R" {
+			for _, cs := range recd.States {
+				if cs.Kind != "event" || cs.Ev.Op != "Rename" || cs.Ev.Phase != vos.Post || cs.Ev.Err != nil || !strings.HasSuffix(cs.Ev.Paths[1], "data.db-wal") {
+					continue
+				}
+				relWal, err := filepath.Rel(dir, cs.Ev.Paths[1])
+				if err != nil || strings.HasPrefix(relWal, "..") {
+					continue
+				}
+				relDB := strings.TrimSuffix(relWal, "-wal")
+				for _, v := range []struct {
+					kind string
+					pick func(i, n int) bool
+				}{
+					{"ckpt-odd", func(i, n int) bool { return i%2 == 1 }},
+					{"ckpt-prefix", func(i, n int) bool { return i < (n+1)/2 }},
+					{"ckpt-all", func(i, n int) bool { return true }},
+				} {
+					d := filepath.Join(root, "states", cs.Label+"-"+v.kind)
+					if vcrash.CopyTree(cs.Dir, d) != nil {
+						continue
+					}
+					if _, err := vcrash.PartialCheckpoint(filepath.Join(d, relDB), filepath.Join(d, relWal), v.pick); err != nil {
+						os.RemoveAll(d)
+						continue
+					}
+					states = append(states, vcrash.State{Ev: cs.Ev, Kind: v.kind, Dir: d, Label: cs.Label + "-" + v.kind})
+				}
+			}
+		}
+
 		inside := 0
-		for _, cs := range recd.States {
+		for _, cs := range states {
 			nontrivial := vcrash.TreeSig(cs.Dir) != beforeSig
 			where := c03Where(cs.Ev, dir)
 			if nontrivial {
@@ -823,6 +860,21 @@ func c03CrashInner(t *testing.T) {
 			c03Current = r.history + " :: crash state " + cs.Label + " (" + where + "): " + vcrash.Listing(cs.Dir)
 			res := c03Restart(dir, nil)
 			held := r.judge(res, cs.Label, cs.Kind, where, cs.Dir, false)
+			if held && nontrivial && h.Final.Kind == "R" {
+				// A reap rewrites the snapshot store but not the live database, so the
+				// fast path above cannot see what it left behind: restart once more
+				// from the same crash state through the restore path (fingerprint
+				// absent, as after Store.ForceSnapshotRestore): snapshot store + log
+				// must rebuild exactly the acknowledged state.
+				if err := vcrash.ReplaceTree(cs.Dir, dir); err != nil {
+					rt.Skip("restore failed")
+				}
+				os.Remove(filepath.Join(dir, cleanSnapshotName))
+				rec.Case(true, r.history+"/"+cs.Label+"/forced-restore")
+				c03Current = r.history + " :: crash state " + cs.Label + " (" + where + "), forced restore: " + vcrash.Listing(cs.Dir)
+				res := c03Restart(dir, nil)
+				held = r.judge(res, cs.Label+"/forced-restore", cs.Kind+"+forced-restore", where, cs.Dir, false)
+			}
 			if held && nontrivial && (inside-1)%h.NestStride == (h.NestOff+1)%h.NestStride {
 				if err := vcrash.ReplaceTree(cs.Dir, dir); err != nil {
 					rt.Skip("restore failed")
